@@ -23,7 +23,8 @@ def kahn_rules(rep, prog, f, S):
     node; a child becomes ready when it has no parent left *in the updated matrix*; leftover edges => ValueError.
     (These are necessary conditions; the inductive argument that they suffice is not mechanised.)"""
     q = f.qname
-    loops = sorted([(k, v) for k, v in S.loopinfo.items() if v["func"] == q], key=lambda kv: kv[0][1])
+    helpers = {x.qname for x in S.facts if x.root == q}
+    loops = sorted([(k, v) for k, v in S.loopinfo.items() if v["func"] in helpers | {q}], key=lambda kv: kv[0][1])
     whiles = [kv for kv in loops if kv[1]["test"] is not None]
     fors = [kv for kv in loops if kv[1]["test"] is None]
     if len(whiles) != 1 or len(fors) != 1:
@@ -87,12 +88,12 @@ def kahn_rules(rep, prog, f, S):
     j = ("elem", fo["iter"])
     okc = fo["iter"] == ("call", U + "ch", (popped, muA), (("A", muA), ("i", popped)))
     rep.check("KAHN.children", okc, fwhere(f, fo["node"]), "visits the children of the emitted node in the current matrix", "inner loop runs over %s" % fmt(fo["iter"])[:100])
-    sts = [s_ for s_ in S.select("store", qname=q) if lf in s_.loops]
+    sts = [s_ for s_ in S.select("store", root=q) if lf in s_.loops]
     oks = len(sts) == 1 and sts[0].idx == ("tuple", (popped, j)) and is_const(sts[0].value, 0) and sts[0].aug is None
     rep.check("KAHN.remove-edge", oks, fwhere(f, sts[0].node if sts else None), "the edge (emitted node -> child) is removed from the working matrix", "the visited edge is not removed as A[i, j] = 0")
     if oks:
         updated = ("store", sts[0].base, sts[0].idx, sts[0].value, None)
-        apps = [c for c in S.select("call", qname=q) if c.callkind == "method" and c.target == ".append" and lf in c.loops]
+        apps = [c for c in S.select("call", root=q) if c.callkind == "method" and c.target == ".append" and lf in c.loops]
         ready = ("empty", ("call", U + "pa", (j, updated), (("A", updated), ("i", j))))
         okr = len(apps) == 1 and apps[0].args == [j] and apps[0].recv[0] == "mu" and apps[0].recv[2] == wl_ and apps[0].path and \
             apps[0].path[-1][1] is True and npred(apps[0].path[-1][0], True) == ready
@@ -101,8 +102,8 @@ def kahn_rules(rep, prog, f, S):
     # K4 leftover: either "entries are left in the working matrix" or "fewer nodes emitted than there are"
     kind = None
     node = None
-    rets = S.select("return", qname=q)
-    for r in [r for r in S.select("raise", qname=q) if r.exctype == "ValueError" and not r.loops and r.path]:
+    rets = [r_ for r_ in S.select("return", root=q) if r_.value[0] == "after"]
+    for r in [r for r in S.select("raise", root=q) if r.exctype == "ValueError" and not r.loops and r.path]:
         c, pol = r.path[-1]
         pn = npred(c, pol)
         aA, aO = ("after", lw, A_), ("after", lw, out_)
@@ -120,7 +121,7 @@ def kahn_rules(rep, prog, f, S):
                 for sz in sizes:
                     if d == {(sz,): 1, (lo,): -1} or (pn[0] == "!=0" and d in ({(sz,): -1, (lo,): 1}, {(sz,): 1, (lo,): -1})):
                         k_ = "count"
-        if k_ and len(rets) == 1 and rets[0].value == ("after", lw, out_) and (c, not pol) in rets[0].path:
+        if k_ and rets and all(r_.value == ("after", lw, out_) for r_ in rets) and any((c, not pol) in r_.path for r_ in rets):
             kind, node = k_, r.node
     rep.check("KAHN.leftover", kind is not None, fwhere(f, node), "after the loop: %s => ValueError; otherwise the ordering is returned" % (
         "entries left in the working matrix" if kind == "entries" else "fewer nodes emitted than the graph has"),
@@ -169,9 +170,9 @@ def run(prog, rep, tier):
 
     # 3. topological_ordering itself: rejects by ValueError, result derives from A
     f = need(prog, U + "topological_ordering")
-    S = Sym(prog)
+    S = Sym(prog, inline=inline_helpers(prog, "sempler.utils"))
     summ, _ = run_function(S, f)
-    rs = [r for r in S.select("raise", qname=f.qname)]
+    rs = [r for r in S.select("raise", root=f.qname)]
     rep.check("TOPO.raises", len(rs) >= 1 and all(r.exctype == "ValueError" for r in rs), fwhere(f),
               "%d rejection sites, all ValueError" % len(rs), "rejections are not ValueError raises: %s" % [r.exctype for r in rs])
     rets = S.select("return", qname=f.qname)
